@@ -666,6 +666,11 @@ def make_api_module(I, registry):
     def _clock_now(I_, args, kw):
         return I_.ctx.clock_now(I_)
 
+    @nf("set_clock")
+    def _set_clock(I_, args, kw):
+        t = args[0]
+        I_.ctx.clock = t if isinstance(t, SymInt) else SymInt(z3.RealVal(repr(float(t))))
+
     @nf("advance_clock")
     def _advance(I_, args, kw):
         return I_.ctx.advance_clock(args[0] if args else None, args[1] if len(args) > 1 else kw.get("hi"))
